@@ -158,3 +158,43 @@ Proof.
   exists tm, n, j0, j, v, v'. repeat split; assumption.
 Qed.
 Print Assumptions C06_embedded_shared_key_refuted.
+
+(* ================= marshaling terminates ================= *)
+From Verif Require Import Rt.EncAcyclic Proofs.DecodeTerm Proofs.EncodeTerm.
+
+(* fuel is only a depth bound for the marshalers: once a fuel produces a result, one more unit
+   produces the same one -- no hypothesis *)
+Theorem C06_marshal_result_independent_of_fuel :
+  forall tm f t v, encode tm f t v <> OutOfFuel -> encode tm (S f) t v = encode tm f t v.
+Proof. exact encode_fuel_monotone. Qed.
+Print Assumptions C06_marshal_result_independent_of_fuel.
+
+(* for every type map in which no struct contains itself by value and FlattenedFields is defined
+   (executable check [encode_termb], evaluated by Corr/Rtcorr.v on the type map of every explored
+   program), EVERY value of EVERY type marshals: there is one result, not OutOfFuel, that every
+   large enough fuel returns -- the "sufficient marshal fuel" that the round-trip theorems take
+   as a hypothesis exists *)
+Theorem C06_marshal_terminates :
+  forall tm, encode_termb tm = true -> forall t v,
+  exists n r, r <> OutOfFuel /\ forall m, (n <= m)%nat -> encode tm m t v = r.
+Proof. exact encode_total_checked. Qed.
+Print Assumptions C06_marshal_terminates.
+
+Theorem C06_marshal_termination_check_is_sound :
+  forall tm, encode_termb tm = true -> encode_term_ok tm.
+Proof. exact encode_termb_sound. Qed.
+Print Assumptions C06_marshal_termination_check_is_sound.
+
+(* non-vacuity: a recursive struct through a pointer and a slice, an interface, an embedded
+   fragment -- the check holds and a nested value marshals *)
+Theorem C06_marshal_termination_witness :
+  encode_termb r_tm = true /\ exists j, encode r_tm 20 (GStruct (b "T")) r_val = Ok j.
+Proof. split; [exact r_tm_encode_termb | exact r_val_encodes]. Qed.
+Print Assumptions C06_marshal_termination_witness.
+
+(* the hypothesis is needed: a struct that contains itself by value (which Go rejects) never
+   marshals in the model, although the decoder's acyclicity check accepts it *)
+Theorem C06_by_value_cycle_diverges :
+  forall n, encode bv_tm n (GStruct (b "A")) VZero = OutOfFuel.
+Proof. exact by_value_cycle_encode_diverges. Qed.
+Print Assumptions C06_by_value_cycle_diverges.
